@@ -241,3 +241,12 @@ Proof.
 Qed.
 
 End M.
+
+Section M2.
+Variable fok : str -> bool.
+Lemma pswitch_mono_any n m st : pswitch fok n st <> PFuel -> n <= m -> pswitch fok m st = pswitch fok n st.
+Proof.
+  intros H Hle. induction Hle; [reflexivity|].
+  rewrite (proj1 (proj2 (proj2 (proj2 (proj2 (proj2 (proj2 (stmt_mono_step fok m))))))) st); [exact IHHle | rewrite IHHle; exact H].
+Qed.
+End M2.
